@@ -175,7 +175,8 @@ def gen_lens(ch, feats, nsurf=None, harsh=False, max_surf=12):
                              ch.rounded(ch.uniform(0, 1 - tr), 3)]
         elif 'coat_fresnel' in feats and ch.chance(0.6) and not is_mirror:
             op['coating'] = 'fresnel'
-        if 'bsdf' in feats and ch.chance(0.3):
+        if 'bsdf' in feats and not any('bsdf' in o for o in ops) and \
+                (ch.chance(0.4) or last):
             op['bsdf'] = ['lambertian'] if ch.chance(0.4) else \
                 ['gaussian', ch.rounded(ch.uniform(0.001, 0.05), 3)]
         ops.append(op)
